@@ -79,6 +79,34 @@ def run_cfg(ctx, fx):
     # stopped() hook (otherwise every handle reports `stopped` while the actor is still winding down)
     from props.c03 import run_loops
     run_loops(ctx, fx, "R14.3", {"L6"})
+    check_announcers(ctx, fx, "R14.5")
+
+
+def check_announcers(ctx, fx, RULE="R14.5"):
+    """the termination is announced by the event loops only (their exit sequence, R14.3): every function from which
+    StopNotifier::notify is reachable is a loop constructor or a helper used by nothing but the loops — an announcement
+    reachable from a restart strategy, a handler or a context operation reports `stopped` for an actor that lives on"""
+    import loops
+    NOTIFY = "context::StopNotifier::notify"
+    owners = {f["parent"] for f, _k in loops.find_loops(fx)}
+    ctx.floor(RULE, "event loops", len(owners), 2)
+    helpers = graph.private_helpers(fx, owners)
+    cr = graph.caller_roots(fx)
+    reach = {NOTIFY}
+    frontier = [NOTIFY]
+    seen_users = {}
+    while frontier:
+        d = frontier.pop()
+        for u in sorted(cr.get(d, set()) - {d}):
+            seen_users.setdefault(u, d)
+            if u not in reach and u not in owners:
+                reach.add(u)
+                frontier.append(u)
+    ctx.floor(RULE, "functions that announce the termination", len(seen_users), 1)
+    for u, via in sorted(seen_users.items()):
+        ok = u in owners or u in helpers
+        f = fx.fn(u) or {}
+        ctx.require(ok, RULE, "announcer:" + u, "the termination can be announced from outside the event loops' exit sequence: %s reaches StopNotifier::notify (through %s) and is used by %s" % (u, via, sorted(cr.get(u, set()) - owners - helpers)[:4]), fn=u, site=f.get("loc"))
 
 
 def check_queries(ctx, fx, RULE, suffix):
